@@ -11,7 +11,9 @@ CLAIMED = {
          "criticality filter, early-exit justified by an inductively proved absorption lemma), SafeState.merge / SafeStatus.merge (each "
          "shortcut restores cache == fold of children; frame: only the cache cell is written) and the leaf/aggregator update functions. "
          "Unbounded: loops by inductive invariants, lists by recursive spec functions.",
-         "Sequential reasoning only: concurrent updates to different leaves are not explored (each merge runs under the role's lock; "
+         "KNOWN FINDING (listed in known_findings.txt, check prints KNOWN-FINDING and exits 0): the establishment of the aggregation invariant "
+         "fails for aggregators without critical descendants (they start in STANDBY instead of 'no opinion'; root{critical task, agg{non-critical "
+         "task}} all CONFIGURED reports MIXED). Sequential reasoning only: concurrent updates to different leaves are not explored (each merge runs under the role's lock; "
          "linearizability of the recompute is residue). Interface-method contracts Role.GetState/GetStatus/GetRoles are assumed for all "
          "implementations; mutexes treated as no-ops on data; STATUS_PRODUCT assumed unmodified after init (checked by a closed-world scan).",
          "DESIGN.md §6 C11"),
